@@ -137,9 +137,24 @@ class Engine:
     def run_real(self, sc, args, explicit=(), packed=False, pack_refs=False, bare=False, extra_args=None, keep=False):
         self.n += 1
         d = os.path.join(self.scratch, "repo%d" % self.n)
-        gitdir = sc.materialise(d, bare=bare, packed=packed, pack_refs=pack_refs)
+        store = packed if packed in ("GIT_OBJECT_DIRECTORY", "GIT_ALTERNATE_OBJECT_DIRECTORIES", "objects/info/alternates") else None
+        gitdir = sc.materialise(d, bare=bare, packed=(True if store == "objects/info/alternates" else False) if store else packed, pack_refs=pack_refs)
         cli = list(extra_args if extra_args is not None else ["--json", "--json-version=1", "--no-progress"]) + list(args) + \
             [sp for sp, _ in explicit]
+        if store:
+            # the object store outside $GIT_DIR/objects, found through the caller's environment or the alternates file
+            objs = d + ".objects"
+            shutil.move(os.path.join(gitdir, "objects"), objs)
+            os.makedirs(os.path.join(gitdir, "objects", "info"))
+            env = S.clean_env()
+            if store == "objects/info/alternates":
+                open(os.path.join(gitdir, "objects", "info", "alternates"), "w").write(objs + "\n")
+            else:
+                env[store] = objs
+            rc, out, err = S.run_sizer(self.bins["sizer"], d, cli, env=env)
+            shutil.rmtree(os.path.join(gitdir, "objects"))
+            shutil.move(objs, os.path.join(gitdir, "objects"))      # back in place for the caller's own questions to git
+            return rc, out, err, d, gitdir
         rc, out, err = S.run_sizer(self.bins["sizer"], d, cli)
         if not keep:
             # the caller may still need the repository to ask git for its enumeration
